@@ -465,6 +465,8 @@ def mk_field(t, name, idx):
         if var == "Continue" and base[0] == "call" and base[1] in TRY_BRANCH and len(base[2]) == 1:
             return ("payload", "Ok" if "Result" in base[1] else "Some", base[2][0])
         if var in ("Ok", "Some", "Err"):
+            if base[0] == "agg" and base[1] == "adt" and isinstance(base[2], str) and base[2].endswith("::" + var) and len(base[3]) == 1:
+                return base[3][0]           # (V(x) as V).0 is x
             return ("payload", var, base)
     if t[0] == "agg":
         kind, ops, names = t[1], t[3], t[4]
